@@ -43,6 +43,22 @@ namespace cnl {
         template<tag Tag1, tag Tag2>
         using common_overflow_tag_t = typename common_overflow_tag<Tag1, Tag2>::type;
 
+        // performs an operation which is known not to overflow
+        template<typename Operator, typename Lhs, typename Rhs>
+        [[nodiscard]] constexpr auto overflow_free_operate(Lhs const& lhs, Rhs const& rhs)
+                -> op_result<Operator, Lhs, Rhs>
+        {
+            if constexpr (
+                    std::is_same_v<Operator, modulo_op> && numbers::signedness_v<Rhs>
+                    && numbers::signedness_v<op_result<Operator, Lhs, Rhs>>) {
+                // the remainder of division by -1 is zero; do not divide the most negative number by -1
+                if (rhs == static_cast<Rhs>(-1)) {
+                    return op_result<Operator, Lhs, Rhs>{};
+                }
+            }
+            return Operator{}(lhs, rhs);
+        }
+
         // result of shifting a number right by at least as many bits as it has
         template<typename Result, typename Lhs>
         [[nodiscard]] constexpr auto shift_right_all(Lhs const& lhs) -> Result
@@ -132,7 +148,7 @@ namespace cnl {
                          ? _impl::overflow_operator<
                                  Operator, _impl::common_overflow_tag_t<LhsTag, RhsTag>,
                                  _impl::polarity::negative>{}(lhs, rhs)
-                         : Operator{}(lhs, rhs);
+                         : _impl::overflow_free_operate<Operator>(lhs, rhs);
         }
     };
 
